@@ -1,5 +1,6 @@
 import ElexModel.Driver.Util
 import ElexModel.Core.Gauss
+import ElexModel.Core.MathUtils
 
 open Lean ElexModel.Driver
 
@@ -22,6 +23,13 @@ def run (op : String) (j : Json) : Except String Json := do
       ("thr", natToJson (thr conf)),
       ("assign", listToJson (fun g => optToJson keyToJson (assign rows L g)) bounds),
       ("source", listToJson (fun g => keyToJson (source conf L g)) bounds)])
+  | "gauss.wmedian" =>
+    let xw ← listOf (fun p => do
+      match ← arrOfJson p with
+      | [a, b] => pure ((← ratOfJson a), (← ratOfJson b))
+      | _ => throw "pair") (← field j "xw")
+    pure (Json.mkObj [("wmedian", optToJson ratToJson (MathUtils.wmedian xw)),
+      ("inflate", ratToJson (MathUtils.inflate (xw.map Prod.snd)))])
   | _ => throw s!"unknown op {op}"
 
 end ElexModel.Driver.Gauss
